@@ -1280,6 +1280,15 @@ def run_e2e(tier: str, rng: random.Random):
     except Exception:  # noqa: BLE001
         backends = backends[:1]
     for name, opts in backends:
+        for i in range(max(4, n // 10)):
+            if sum(1 for m, _, _ in results if m) >= 3:
+                break
+            seed = rng.randrange(1 << 30)
+            mon, desc, flags = e2e_two_phase_stop(random.Random(seed), opts, f"{name}-2ph-{i}")
+            desc["seed"] = seed
+            desc["backend"] = name
+            desc["replay_fn"] = "e2e_two_phase_stop"
+            results.append((mon, desc, flags))
         for i in range(n):
             if sum(1 for m, _, _ in results if m) >= 3:
                 break
@@ -1289,6 +1298,145 @@ def run_e2e(tier: str, rng: random.Random):
             desc["backend"] = name
             results.append((mon, desc, flags))
     return results, [b[0] for b in backends]
+
+
+def e2e_two_phase_stop(rng: random.Random, backend_opts: dict, label: str):
+    """Two-phase shutdown, end to end: calls are running; a task inside the portal executes `await portal.stop()`
+    (new calls are refused, running ones go on), later `await portal.stop(cancel_remaining=True)`: every running task
+    must be cancelled promptly WITHOUT its gate being released, its caller must get CancelledError, and leaving
+    start_blocking_portal() must complete.  Returns (monitor messages, description, flags)."""
+    import anyio
+    from anyio.from_thread import start_blocking_portal
+
+    mon: list[str] = []
+    flags = {"two_phase_stop"}
+    n = rng.choice([1, 2, 3, 4])
+    calls = [E2ECall(i, rng.choice(["soon", "start", "call"]), True, True, False, None, False, False) for i in range(n)]
+    for c in calls:
+        if c.api == "start":
+            c.started = 2000 + c.idx
+    phase1, phase2 = threading.Event(), threading.Event()
+    admin_state = {"stopped1": threading.Event(), "stopped2": threading.Event()}
+    st = {"portal": None, "t_exited": None, "owner_exc": None}
+    portal_ready, exit_signal, exited = threading.Event(), threading.Event(), threading.Event()
+
+    def owner():
+        try:
+            with start_blocking_portal("asyncio", backend_opts) as portal:
+                st["portal"] = portal
+                portal_ready.set()
+                exit_signal.wait(E2E_WAIT * 3)
+        except BaseException as e:  # noqa: BLE001
+            st["owner_exc"] = e
+        finally:
+            st["t_exited"] = time.monotonic()
+            exited.set()
+            portal_ready.set()
+
+    towner = threading.Thread(target=owner, name=f"c15-owner-{label}", daemon=True)
+    towner.start()
+    if not portal_ready.wait(E2E_WAIT) or st["portal"] is None:
+        return [f"start_blocking_portal did not come up: {st['owner_exc']!r}"], {"label": label}, flags
+    portal = st["portal"]
+
+    async def admin():
+        while not phase1.is_set():
+            await anyio.sleep(0.001)
+        await portal.stop()
+        admin_state["stopped1"].set()
+        try:
+            while not phase2.is_set():
+                await anyio.sleep(0.001)
+        finally:
+            await portal.stop(cancel_remaining=True)
+            admin_state["stopped2"].set()
+
+    def caller(c: E2ECall):
+        fn = e2e_make_fn(c)
+        try:
+            if c.api == "call":
+                c.issued.set()
+                c.caller = ("ok", portal.call(fn))
+                return
+            if c.api == "soon":
+                c.fut = portal.start_task_soon(fn)
+            else:
+                c.fut, c.start_ret = portal.start_task(fn)
+            c.issued.set()
+            c.caller = ("ok", c.fut.result(timeout=E2E_WAIT * 2))
+        except TimeoutError:
+            c.caller = ("hang",)
+        except BaseException as e:  # noqa: BLE001
+            c.caller = ("exc", e)
+        finally:
+            c.issued.set()
+
+    admin_fut = portal.start_task_soon(admin)
+    tcallers = [threading.Thread(target=caller, args=(c,), name=f"c15-2ph-caller-{c.idx}", daemon=True) for c in calls]
+    for t in tcallers:
+        t.start()
+    deadline = time.time() + E2E_WAIT
+    while time.time() < deadline and not all(c.execs for c in calls):
+        time.sleep(0.001)
+    if not all(c.execs for c in calls):
+        mon.append("harness: calls did not start")
+    phase1.set()
+    if not admin_state["stopped1"].wait(E2E_WAIT):
+        mon.append("harness: first stop() did not run")
+    try:
+        portal.start_task_soon(lambda: 0)
+        mon.append("a call issued after stop() was not refused")
+    except RuntimeError:
+        flags.add("refused")
+    time.sleep(rng.choice([0, 0.002, 0.01]))
+    for c in calls:
+        if c.t_finished is not None:
+            mon.append(f"call {c.idx} ended ({c.outcome}) after a plain stop() although its gate was never released")
+    phase2.set()
+    if not admin_state["stopped2"].wait(E2E_WAIT):
+        mon.append("harness: second stop() did not run")
+    t_stop2 = time.monotonic()
+    grace = 3.0
+    while time.monotonic() < t_stop2 + grace and not all(c.t_finished is not None for c in calls):
+        time.sleep(0.001)
+    for c in calls:
+        if c.t_finished is None:
+            mon.append(f"call {c.idx} ({c.api}) is still running {grace}s after stop(cancel_remaining=True): remaining "
+                       f"tasks were not cancelled, the exit waits for them to finish by themselves")
+        elif c.outcome != ("cancelled",):
+            mon.append(f"call {c.idx} ({c.api}) ended with {c.outcome} instead of being cancelled")
+        else:
+            flags.add("task_cancelled")
+    exit_signal.set()
+    left_in_time = exited.wait(grace)
+    if not left_in_time:
+        mon.append("leaving start_blocking_portal() does not complete after stop(cancel_remaining=True)")
+    for c in calls:            # clean-up (only matters after a failure): let everything end
+        c.gate.set()
+    exited.wait(E2E_WAIT)
+    for t in tcallers:
+        t.join(E2E_WAIT)
+        if t.is_alive():
+            mon.append(f"caller thread {t.name} left hanging")
+    for c in calls:
+        if c.execs != 1:
+            mon.append(f"call {c.idx}: callable ran {c.execs} times")
+        if c.outcome == ("cancelled",) and not (c.caller and c.caller[0] == "exc" and isinstance(c.caller[1], FutCancelledError)):
+            mon.append(f"call {c.idx} ({c.api}) was cancelled but its caller got {c.caller!r}")
+        if c.t_finished is not None and st["t_exited"] is not None and c.t_finished > st["t_exited"]:
+            mon.append(f"call {c.idx}: leaving the portal's context completed before this task finished")
+    try:
+        admin_fut.result(timeout=E2E_WAIT)
+    except FutCancelledError:
+        pass
+    except BaseException as e:  # noqa: BLE001
+        mon.append(f"the task performing the two-phase shutdown got {e!r}")
+    if st["owner_exc"] is not None:
+        mon.append(f"start_blocking_portal() raised {st['owner_exc']!r}")
+    towner.join(1.0)
+    desc = {"label": label, "scenario": "two-phase shutdown: stop() then stop(cancel_remaining=True) with calls running",
+            "calls": [c.describe() for c in calls]}
+    return mon, desc, flags
 
 
 def e2e_cancel_race(rounds: int, budget_s: float, backend_opts: dict, label: str):
@@ -1451,6 +1599,22 @@ def check(tier: str) -> int:
     impl_rejected = sum(1 for r in runs for i in range(0, len(r.outs), NOBS_GLOBAL + NOBS_CALL * r.ncalls) if r.outs[i] in (98, 99))
     monitor_hits = [(r, msg) for r in runs for msg in r.mon]
 
+    # A disagreement without a monitor hit: the implementation is NOT abandoned at the point of divergence -- every case
+    # above was executed to its end (including the drain) on the implementation alone and the monitors ran over the
+    # whole trace.  In addition, search for a monitor-failing input around the divergence: random continuations of the
+    # shortest diverging prefixes, executed on the implementation only.
+    explored = 0
+    if disagreements and not monitor_hits:
+        for dcase in sorted(disagreements, key=lambda d: len(d["ops"]))[:4]:
+            for _ in range(25 if tier == "quick" else 100):
+                r2 = random_case(rng, rng.choice([4, 8, 12]), prefix=dcase["ops"], ncalls=dcase["ncalls"])
+                r2.scripted_len = len(r2.ops)
+                explored += 1
+                if r2.mon:
+                    monitor_hits += [(r2, msg) for msg in r2.mon]
+            if monitor_hits:
+                break
+
     sample_n = 40 if tier == "quick" else 300
     idx = list(range(len(cases)))
     rng.shuffle(idx)
@@ -1477,6 +1641,9 @@ def check(tier: str) -> int:
         ops = r.ops
         try:
             ops = shrink(r.ncalls, r.ops[:max(r.scripted_len, 6)] if hasattr(r, "scripted_len") else r.ops)
+            shrunk_mon = run_script(r.ncalls, ops).mon
+            if shrunk_mon:
+                msg = shrunk_mon[0]                 # what the shrunk history itself shows
         except Exception:  # noqa: BLE001
             pass
         rep.violation(msg, {"kind": "monitor", "part": "a (SchedLoop)", "ncalls": r.ncalls, "ops": ops,
@@ -1485,7 +1652,8 @@ def check(tier: str) -> int:
     for mon, desc in e2e_hits[:4]:
         rep.violation(mon[0], {"kind": "monitor", "part": "b (end-to-end, real threads)", "scenario": desc,
                                "all_messages": mon[:6],
-                               "replay": "harness/c15.py: e2e_scenario(random.Random(seed), backend options, label)"})
+                               "replay": "harness/c15.py: " + desc.get("replay_fn", "e2e_scenario")
+                                         + "(random.Random(seed), backend options, label)"})
     for rmon, rstats in races:
         if rmon:
             rep.violation(rmon[0], {"kind": "monitor", "part": "b (end-to-end, cancel-vs-completion stress, probabilistic)",
@@ -1515,7 +1683,7 @@ def check(tier: str) -> int:
     for _, _, fl in e2e:
         for f in fl:
             e2e_flags[f] = e2e_flags.get(f, 0) + 1
-    interesting = {"interrupt", "future_cancel_interrupts_task", "land_during_exit_checkpoint", "land_during_exit_wait",
+    interesting = {"two_phase_stop_with_running_calls", "interrupt", "future_cancel_interrupts_task", "land_during_exit_checkpoint", "land_during_exit_wait",
                    "land_refused_group_inactive", "issue_refused_after_stop", "result_dropped_cancelled", "host_rewaits",
                    "future_cancel_after_stop", "started"}
     distinct = len({tuple(c) for c, r in zip(cases, runs) if r.flags & interesting})
@@ -1552,6 +1720,7 @@ def check(tier: str) -> int:
         "model_rejected_ops": rejected,
         "impl_rejected_ops": impl_rejected,
         "monitor_hits": len(monitor_hits),
+        "continuations_explored_around_divergences": explored,
         "phase_seconds": phase_s,
         "e2e": {"scenarios": len(e2e), "backends": backends, "monitor_hits": len(e2e_hits), "reached": e2e_flags,
                 "cancel_vs_completion_stress": {
@@ -1566,7 +1735,7 @@ def check(tier: str) -> int:
                                       "future_cancel_before_first_step", "interrupt_swallowed", "land_after_stop_accepted"}):
         if not flags.get(need):
             rep.notes.append(f"generator self-check: predicate {need} never reached")
-    for need in ("refused", "task_cancelled", "future_cancelled", "value", "exception", "started", "cancel_remaining",
+    for need in ("two_phase_stop", "refused", "task_cancelled", "future_cancelled", "value", "exception", "started", "cancel_remaining",
                  "finished_after_stop_requested"):
         if not e2e_flags.get(need):
             rep.notes.append(f"e2e generator self-check: predicate {need} never reached")
